@@ -210,6 +210,26 @@ def cases(rng, seeds):
                             lambda n=n, ps=ps, s=s: xgi.random_simplicial_complex(n, ps, seed=s)))
     graphs = [nx.complete_graph(4), nx.cycle_graph(5), nx.path_graph(3), nx.Graph([(0, 1), (1, 2), (0, 2), (2, 3), (3, 4), (2, 4)]),
               nx.empty_graph(3)]
+
+    # graphs that did not come out of a generator: nodes created first (in any order), links inserted in any
+    # order and orientation
+    def handmade(n, links, k, lab=lambda x: x):
+        r = random.Random(7919 * k + n)
+        G = nx.Graph()
+        order = list(range(n))
+        r.shuffle(order)
+        G.add_nodes_from([lab(x) for x in order])
+        L = [tuple(lab(x) for x in r.sample(list(l), 2)) for l in links]
+        r.shuffle(L)
+        G.add_edges_from(L)
+        return G
+    tri = [(0, 2), (0, 1), (1, 2)]
+    k4 = [(a, b) for a in range(4) for b in range(a + 1, 4)]
+    k5 = [(a, b) for a in range(5) for b in range(a + 1, 5)]
+    bow = [(0, 1), (1, 2), (0, 2), (2, 3), (3, 4), (2, 4)]
+    gnp = [(a, b) for a in range(6) for b in range(a + 1, 6) if random.Random(a * 31 + b).random() < 0.6]
+    graphs += [handmade(3, tri, 0), handmade(3, tri, 1), handmade(4, k4, 2), handmade(5, k5, 3), handmade(5, bow, 4),
+               handmade(6, gnp, 5), handmade(6, gnp, 6), handmade(5, bow, 7), handmade(4, k4, 8)]
     for G in graphs:
         links = [[a, b] for a, b in G.edges]
         nodes = list(G.nodes)
